@@ -47,7 +47,7 @@ theorem overfillNode_eq (cmp : K → K → Int) (id : Nat) (kvs : List (K × V))
   have hall : (insertAt kvs (lowerIdx Gen.Tree.amalgamLess cmp kv.1 kvs) kv).length = keysCap + 1 := by
     rw [length_insertAt, hfull]
   unfold overfillNode
-  simp only [c3, c4, c5]
+  simp only [c3, c4, c5, extraChildPos_eq]
   generalize Gen.Tree.medianIdx.toNat = m at *
   generalize Gen.Tree.rightN.toNat = rn at *
   generalize insertAt kvs (lowerIdx Gen.Tree.amalgamLess cmp kv.1 kvs) kv = all at *
